@@ -985,6 +985,21 @@ func Parse(in io.Reader, filename string, mode py.CompileMode) (mod ast.Mod, err
 	}()
 	yyParse(lex)
 	err = lex.ErrorReturn()
+	if err == nil && mode == py.SingleMode {
+		// The grammar for a single interactive statement stops
+		// at the end of the statement: nothing but blank lines
+		// and comments may follow it
+		var lval yySymType
+		for tok := lex.Lex(&lval); tok != eof; tok = lex.Lex(&lval) {
+			if tok != NEWLINE && tok != ENDMARKER && tok != DEDENT {
+				err = py.ExceptionNewf(py.SyntaxError, "multiple statements found while compiling a single statement")
+				break
+			}
+		}
+		if err == nil {
+			err = lex.ErrorReturn()
+		}
+	}
 	if err != nil {
 		err = py.MakeSyntaxError(err, filename, lex.pos.Lineno, lex.pos.ColOffset, lex.lastLine)
 	}
